@@ -176,7 +176,8 @@ def step (s : DS) (ts : List String) : DS × String :=
       match s.defs.find? (fun b => b.id == id), parseNat? nowv with
       | some b, some nw =>
         let (st', r) := submit s.cfg s.st nw b
-        ({ s with st := st' }, s!"{resName r} tip={st'.tip} st={statusOf st' id}")
+        let stat := if resName r == "err badparent" then "na" else statusOf st' id
+        ({ s with st := st' }, s!"{resName r} tip={st'.tip} st={stat}")
       | _, _ => (s, "bad-op")
     | _, _ => (s, "bad-op")
   | _ => (s, "bad-op")
